@@ -10,3 +10,4 @@ import SplinkVerif.Model.BlockingAnalysis
 import SplinkVerif.Model.EM
 import SplinkVerif.Model.Estimators
 import SplinkVerif.Model.GraphMetrics
+import SplinkVerif.Model.Cache
